@@ -62,6 +62,11 @@ CHECKS = {
    text="The slicing code is a per-triangle case analysis on the sign pattern of three vertices; for each of 8 lattice meshes (convex, non-convex, genus 1, two bodies, open, a plate with a non-convex through pocket) and 15 directions every offset through a vertex height and strictly between consecutive vertex heights is enumerated, which realises every sign pattern in every vertex rotation. Sections are compared with exact clipping (on plane, on surface, complete, closed loops, attributed face), multiplane sections with non-unit normals, slices with side / on-surface / area additivity, caps with volume additivity, exact cross-section area and watertightness of convex halves for all three triangulation engines.",
    note="Coverage / closed-loop clauses only where the statement demands them (no mesh edge in the plane / general position). Known finding: capped halves of a non-convex solid when the plane passes through vertices.",
    design="3.C11"),
+ "C08": dict(level="exploration", engine="E2",
+   technique="complete product enumeration: geometry family x exporter/loader pairs x encoding options x {file object, path on disk}, with per-format stored-precision oracles",
+   text="Round-trip defects are selected by discrete features (face count modulo a batch size, index width, a skipped empty geometry shifting mesh indices, colour kind, nested instancing): the family contains one geometry per feature and the complete product with 11 mesh formats and their options, 8 scene formats, point-cloud and path formats is executed; triangles must come back in order with coordinates equal to float32(source) / bit exact / half a unit of the written digits, colours where the format stores them, instance placement by world-space triangle multiset, and the exported object must be unchanged.",
+   note="Known findings: 3MF cannot represent a node with both geometry and children, and loses everything when the scene holds an empty mesh. ASCII PLY does not store face colours (by design, not demanded). DXF/SVG only for planar paths.",
+   design="3.C08"),
 }
 
 NA = {}
